@@ -302,12 +302,121 @@ def ledgers_digest(led):
     return stable_hash(led.text)[:12]
 
 
+def named_query_sessions(ctx, i):
+    """Shell sessions over a ledger with `query` directives: `.run name` closes the period at the directive's date unless
+    the statement has a CLOSE of its own; the very same statement text typed at the prompt does not. Lines of both kinds
+    in random order; every output equals the API result (fresh connection, csv) of the statement with the clause spelled out."""
+    import contextlib
+    import io
+    import os
+    import tempfile
+    import beanquery
+    from beanquery import shell, query_render
+    from beancount import loader
+    rng = ctx.rng('named', i)
+    led = ledgers.gen_ledger(rng, ntxn=rng.randint(6, 14), with_queries=False, start_year=2019, nyears=3)
+    shapes = [
+        ('SELECT date, account, position, balance FROM {f} WHERE account ~ "Assets" ORDER BY date, account', True),
+        ('SELECT account, sum(position) AS s FROM {f} GROUP BY account ORDER BY account', True),
+        ('SELECT account, units(sum(position)) AS u FROM {f} WHERE number > 0 GROUP BY account ORDER BY account', True),
+        ('SELECT count(*) AS n, first(date) AS a, last(date) AS b FROM {f}', True),
+    ]
+    # (expression, OPEN ON, CLOSE ON, CLEAR): the grammar wants them in this order
+    froms = [(None, '2020-01-01', None, False), (None, None, None, True), (None, '2019-06-01', None, True), ('year >= 2019', None, None, False),
+             ('flag = "*"', '2020-03-01', None, False), (None, '2020-02-01', '2021-02-01', False), (None, None, '2020-09-01', False),
+             ('year >= 2019', '2019-03-01', None, True)]
+
+    def from_text(f, default_close=None):
+        expr, open_, close, clear = f
+        close = close or default_close
+        return ' '.join(x for x in (expr, f'OPEN ON {open_}' if open_ else None, f'CLOSE ON {close}' if close else None, 'CLEAR' if clear else None) if x)
+    dates = ['2019-08-15', '2020-05-10', '2020-11-20', '2021-03-01', '2021-12-31']
+    queries = {}       # name -> (date, template, from-clause)
+    lines_q = []
+    for k in range(rng.randint(3, 6)):
+        tmpl, _ = rng.choice(shapes)
+        f = rng.choice(froms)
+        if k >= 2 and rng.random() < 0.5:
+            # the same statement text under another name and date
+            _, tmpl, f = queries[rng.choice(sorted(queries))]
+        d = rng.choice(dates)
+        name = f'q{k}'
+        queries[name] = (d, tmpl, f)
+        text = tmpl.format(f=from_text(f)).replace('"', "'")
+        lines_q.append(f'{d} query "{name}" "{text}"')
+    ledger_text = led.text + '\n' + '\n'.join(lines_q) + '\n'
+    case = {'ledger': ledger_text}
+    fd, path = tempfile.mkstemp(suffix='.beancount', prefix='bqv-c13-')
+    os.close(fd)
+    try:
+        with open(path, 'w') as f_:
+            f_.write(ledger_text)
+        entries, errors, options = loader.load_file(path)
+        out = io.StringIO()
+        with contextlib.redirect_stdout(io.StringIO()), contextlib.redirect_stderr(io.StringIO()):
+            sh = shell.BQLShell(path, out, interactive=False, runinit=False, format='csv')
+        session = []
+        for _ in range(rng.randint(5, 10)):
+            name = rng.choice(sorted(queries))
+            session.append((rng.choice(['run', 'typed']), name))
+        history = []
+        for kind, name in session:
+            d, tmpl, f = queries[name]
+            text = tmpl.format(f=from_text(f)).replace('"', "'")
+            spelled = text if kind == 'typed' else tmpl.format(f=from_text(f, default_close=d)).replace('"', "'")
+            conn = beanquery.connect('beancount:', entries=entries, errors=errors, options=options)
+            buf = io.StringIO()
+            rejected = None
+            try:
+                curs = conn.execute(spelled)
+                query_render.render_csv(curs.description, curs.fetchall(), options['dcontext'], buf, expand=False, nullvalue='')
+            except beanquery.ProgrammingError as exc:
+                rejected = exc           # e.g. the default CLOSE date is before the OPEN date
+            out.seek(0)
+            out.truncate()
+            raised = None
+            with contextlib.redirect_stdout(io.StringIO()) as so, contextlib.redirect_stderr(io.StringIO()) as se:
+                try:
+                    sh.onecmd(f'.run {name}' if kind == 'run' else text + ';')
+                except beanquery.ProgrammingError as exc:
+                    raised = exc
+                except Exception as exc:  # noqa: BLE001
+                    ctx.violation(f'c13.shell_raised.{type(exc).__name__}', f'{kind} {name}: {type(exc).__name__}: {exc}', dict(case, history=history))
+                    return
+            got = out.getvalue()
+            history.append(f'.run {name}' if kind == 'run' else text)
+            if rejected is not None:
+                ctx.count('obs.named_query_rejected')
+                if raised is None and not se.getvalue() and got:
+                    ctx.violation('c13.named_query_period', f'{history[-1]!r}: the API rejects {spelled!r} ({rejected}) but the shell printed a result', dict(case, history=history))
+                    return
+                continue
+            if raised is not None:
+                ctx.violation('c13.named_query_period', f'{history[-1]!r}: the shell rejects it ({raised}) but the API accepts {spelled!r}', dict(case, history=history))
+                return
+            ctx.count(f'obs.named_query_lines.{kind}')
+            ctx.case(('named', ledger_text, tuple(history)), spelled != text or kind == 'typed')
+            if spelled != text:
+                ctx.count('obs.named_query_default_close_applied')
+            if got != buf.getvalue():
+                ctx.violation('c13.named_query_period',
+                              f'line {len(history)} of a shell session ({history[-1]!r}): the output differs from the API result of {spelled!r} '
+                              f'({len(got.splitlines())} lines vs {len(buf.getvalue().splitlines())}); stderr {se.getvalue()[:120]!r}',
+                              dict(case, history=history, shell_output=got[:600], api_output=buf.getvalue()[:600]))
+                return
+        ctx.count('obs.named_query_sessions')
+    finally:
+        os.unlink(path)
+
+
 def run(ctx):
     engine.bq()
     for n in range(ctx.pick(25, 800)):
         if ctx.out_of_time():
             break
         run_case(ctx, n)
+        if n % 3 == 0:
+            named_query_sessions(ctx, n)
 
 
 def replay(ctx, case):
@@ -323,7 +432,8 @@ def finalize(merged):
         reasons.append(f'only {len(subsets)} of the clause subsets observed: {sorted(subsets)}')
     for k in ('obs.original_transactions_cut', 'obs.original_transactions_kept', 'obs.balance_sheet_accounts_compared',
               'obs.income_statement_accounts_compared', 'obs.filter_relations', 'obs.print_route', 'obs.balances_route', 'obs.journal_route',
-              'obs.close_before_open_rejected', 'obs.digest_comparisons', 'obs.statements_on_shared_connection', 'obs.subselect_clause_relations'):
+              'obs.close_before_open_rejected', 'obs.digest_comparisons', 'obs.statements_on_shared_connection', 'obs.subselect_clause_relations',
+              'obs.named_query_sessions', 'obs.named_query_lines.run', 'obs.named_query_lines.typed', 'obs.named_query_default_close_applied'):
         if c.get(k, 0) == 0:
             reasons.append(f'{k} == 0')
     return reasons
